@@ -488,7 +488,7 @@ func (x *Exec) feasible(st *State) bool {
 		b.WriteString(ln + "\n")
 	}
 	txt := b.String()
-	dir := filepath.Join(verifDir, "out", "tmp")
+	dir := filepath.Join(outBase(), "tmp")
 	os.MkdirAll(dir, 0755)
 	x.e.feasN++
 	file := filepath.Join(dir, fmt.Sprintf("feas_%d_%d.smt2", os.Getpid(), x.e.feasN))
